@@ -187,6 +187,9 @@ func (fr *frame) jump(to *ssa.BasicBlock) {
 			fr.backedges = map[int]int{}
 		}
 		fr.backedges[to.Index]++
+		if fr.backedges[to.Index] > fr.i.px.unwind && fr.i.px.unwindFail {
+			fr.i.px.violation(fr, "termination bound exceeded", fmt.Sprintf("a loop in %s ran more than %d iterations%s", fr.fn, fr.i.px.unwind, fr.i.loc(fr.fn.Pos())))
+		}
 		if fr.backedges[to.Index] > fr.i.px.unwind && fr.i.px.unwindCut {
 			fr.i.px.note(fmt.Sprintf("loop cut at the declared bound of %d iterations in %s (longer executions are outside the bound)", fr.i.px.unwind, fr.fn))
 			panic(&pathEnd{kind: endPruned, msg: "loop cut at declared bound"})
